@@ -26,7 +26,7 @@ func init() {
 		RequiredCounters: []string{"correct_results_accepted", "wrong_results_rejected", "boundary_255_proofs", "boundary_256_proofs", "reference_verifier_decisions"},
 		Assumptions:      []string{"the commitment is the library's Commit (C05's subject)", "a random forgery verifying is treated as impossible"},
 		Plan: func(tier string) []Child {
-			return shards(pick(tier, 12, 16), Child{Flavour: "plain", NCPU: 1})
+			return shardsVar(pick(tier, 12, 16), Child{Flavour: "plain", NCPU: 1})
 		},
 		Run: runC04,
 	})
